@@ -1,12 +1,16 @@
 import Rs1090.Driver.Common
 import Rs1090.Model.Snapshot
+import Rs1090.Model.SnapshotView
 namespace Rs1090.Driver.C12
-open Rs1090 Rs1090.Model.Snapshot Rs1090.Driver
+open Rs1090 Rs1090.Model.Snapshot Rs1090.Model.SnapshotView Rs1090.Driver
 
 /-- `snap <record> <record> …` : the table after the history, entries in key order
-    (record tokens: Model/Snapshot.lean, "Line protocol"). -/
+    (record tokens: Model/Snapshot.lean, "Line protocol").
+    `snapf <ts>:<framehex>[:<lat>,<lon>] …` : the same from the received frames — decoder model,
+    `viewOfJson`, `update` (Model/SnapshotView.lean, `runFrames`). -/
 def handle : List String → Option String
   | "snap" :: recs => (recs.mapM parseRecord).map fun h => showTable (run h)
+  | "snapf" :: rxs => (rxs.mapM parseRx).map fun h => showTable (runFrames h)
   | _ => none
 
 end Rs1090.Driver.C12
